@@ -783,3 +783,924 @@ Proof.
   - hnorm. auto.
   - intros j Ij Nj. exfalso. apply Nj, I'. auto.
 Qed.
+
+Lemma remove_sim s a l r xs e :
+  Rep s a -> nth_error (a_lists a) l = Some (r, Some xs) -> In e xs ->
+  exists s', list_remove l (Some e) s = Ok s' /\ Rep s' (a_set a l (rem e xs)).
+Proof.
+  intros R H Ie.
+  destruct (Rep_list _ _ _ _ _ R H) as (Hl & Hr & Hor & Hlen).
+  destruct (R_init _ _ R _ _ _ H) as (C & D & O).
+  assert (Nr : ~ In r xs) by (eapply Rep_root_notin; eauto).
+  assert (Ner : e <> r) by (intros ->; auto).
+  assert (He : e < size s) by (eapply ow_lt; eauto).
+  destruct (chain_remove _ _ _ _ _ C D Nr Ie) as (p & n & Ep & En & Hp & Hn & Npe & Nne & C').
+  assert (Hp_lt : p < size s) by (destruct Hp as [->|I]; [auto|eapply ow_lt; eauto]).
+  assert (Hn_lt : n < size s) by (destruct Hn as [->|I]; [auto|eapply ow_lt; eauto]).
+  unfold list_remove.
+  hstep. hstep. rewrite Ep, En. hstep. hstep. hstep. hnorm. rewrite En, Ep. hstep.
+  fold (st_unlink s p n).
+  hstep. hstep. hstep. hnorm. rewrite (len_of_eq _ _ _ _ Hl). cbn [bind].
+  rewrite set_len_eq by (autorewrite with heap; auto).
+  eexists. split; [reflexivity|].
+  apply (Rep_set_list s a _ l r (Some xs) (rem e xs)); auto.
+  - now autorewrite with heap.
+  - intro j. now autorewrite with heap.
+  - intro j. rewrite lsts_st_len. cbn [lsts st_upd st_unlink]. rewrite Hl.
+    destruct (j =? l); [|reflexivity].
+    cbn [option_map l_root alen]. do 2 f_equal. pose proof (length_rem e xs D Ie). lia.
+  - intros j Nj Nx _.
+    assert (j <> e) by (intros ->; tauto). assert (j <> p) by (destruct Hp as [->|]; [auto|intros ->; tauto]).
+    assert (j <> n) by (destruct Hn as [->|]; [auto|intros ->; tauto]).
+    hnorm. unfold upd. hnorm. auto.
+  - intros j Ij Nj. apply in_rem in Ij. tauto.
+  - eapply chain_frame; [| |exact C'].
+    + intros x Hx. assert (x <> e) by (destruct Hx as [->|Hx]; [auto|apply in_rem in Hx; tauto]).
+      now hnorm.
+    + intros x Hx. assert (x <> e) by (destruct Hx as [Hx| ->]; [apply in_rem in Hx; tauto|auto]).
+      now hnorm.
+  - apply NoDup_rem; auto.
+  - intros x Ix. apply in_rem in Ix as [Ix Nx]. hnorm. auto.
+  - hnorm. auto.
+  - intros j Ij Nj. assert (j = e).
+    { destruct (Nat.eq_dec j e); auto. exfalso. apply Nj, in_rem. auto. }
+    subst j. hnorm. auto.
+Qed.
+
+Lemma move_sim s a l r xs e at_ :
+  Rep s a -> nth_error (a_lists a) l = Some (r, Some xs) -> In e xs -> (at_ = r \/ In at_ xs) -> e <> at_ ->
+  exists s', list_move l (Some e) (Some at_) s = Ok s' /\ Rep s' (a_set a l (link_after r at_ e (rem e xs))).
+Proof.
+  intros R H Ie Hat Nea.
+  destruct (Rep_list _ _ _ _ _ R H) as (Hl & Hr & Hor & Hlen).
+  destruct (R_init _ _ R _ _ _ H) as (C & D & O).
+  assert (Nr : ~ In r xs) by (eapply Rep_root_notin; eauto).
+  assert (Ner : e <> r) by (intros ->; auto).
+  assert (He : e < size s) by (eapply ow_lt; eauto).
+  destruct (chain_remove _ _ _ _ _ C D Nr Ie) as (p & n & Ep & En & Hp & Hn & Npe & Nne & C1).
+  assert (Hp_lt : p < size s) by (destruct Hp as [->|I]; [auto|eapply ow_lt; eauto]).
+  assert (Hn_lt : n < size s) by (destruct Hn as [->|I]; [auto|eapply ow_lt; eauto]).
+  assert (Hat_lt : at_ < size s) by (destruct Hat as [->|I]; [auto|eapply ow_lt; eauto]).
+  assert (Nr1 : ~ In r (rem e xs)) by (rewrite in_rem; tauto).
+  assert (Hat1 : at_ = r \/ In at_ (rem e xs)) by (rewrite in_rem; destruct Hat; auto).
+  assert (Ne1 : ~ In e (rem e xs)) by (rewrite in_rem; tauto).
+  destruct (chain_insert _ _ _ _ _ _ C1 (NoDup_rem e xs D) Nr1 Hat1 Ner Ne1) as (n0 & En0 & Hn0 & C' & D' & I').
+  assert (Hn0_lt : n0 < size s).
+  { destruct Hn0 as [->|I]; [auto|]. apply in_rem in I as [I _]. eapply ow_lt; eauto. }
+  unfold list_move. replace (ptr_eqb (Some e) (Some at_)) with false by (symmetry; apply ptr_eqb_neq; congruence).
+  hstep. hstep. rewrite Ep, En. hstep. hstep. hstep. hnorm. rewrite En, Ep. hstep.
+  fold (st_unlink s p n).
+  hstep. hstep. hnorm. rewrite En0. hstep. hstep. hnorm. hstep. hstep. hnorm. hstep.
+  fold (st_link (st_unlink s p n) e at_ n0).
+  eexists. split; [reflexivity|].
+  assert (Len : length (link_after r at_ e (rem e xs)) = length xs).
+  { rewrite length_link_after by auto. apply length_rem; auto. }
+  apply (Rep_set_list s a _ l r (Some xs) (link_after r at_ e (rem e xs))); auto.
+  - now autorewrite with heap.
+  - intro j. now autorewrite with heap.
+  - intro j. cbn [lsts st_link st_unlink st_upd]. destruct (Nat.eqb_spec j l) as [->|]; [|reflexivity].
+    rewrite Hl, Len. reflexivity.
+  - intros j Nj Nx _.
+    assert (j <> e) by (intros ->; tauto). assert (j <> p) by (destruct Hp as [->|]; [auto|intros ->; tauto]).
+    assert (j <> n) by (destruct Hn as [->|]; [auto|intros ->; tauto]).
+    assert (j <> at_) by (destruct Hat as [->|]; [auto|intros ->; tauto]).
+    assert (j <> n0) by (destruct Hn0 as [->|I]; [auto|intros ->; apply in_rem in I; tauto]).
+    hnorm. unfold upd. hnorm. unfold upd. hnorm. auto.
+  - intros j Ij Nj. apply I' in Ij. rewrite in_rem in Ij. destruct Ij as [->|]; tauto.
+  - eapply chain_ext; [| |exact C']; intro j; repeat (autorewrite with heap; unfold upd); reflexivity.
+  - intros x Ix. apply I' in Ix. autorewrite with heap.
+    destruct Ix as [->|Ix]; auto. apply in_rem in Ix. apply O; tauto.
+  - hnorm. auto.
+  - intros j Ij Nj. exfalso. apply Nj, I'. rewrite in_rem.
+    destruct (Nat.eq_dec j e); auto.
+Qed.
+
+(* ---- allocation ---- *)
+Definition zero_elem (v : Z) : elem := Elem None None None v.
+
+Lemma nx_alloc s v j : nx (st_alloc s (zero_elem v)) j = nx s j.
+Proof.
+  unfold nx. rewrite proj_st_alloc. destruct (Nat.eqb_spec j (size s)) as [->|]; auto.
+  rewrite proj_out; auto.
+Qed.
+Lemma pv_alloc s v j : pv (st_alloc s (zero_elem v)) j = pv s j.
+Proof.
+  unfold pv. rewrite proj_st_alloc. destruct (Nat.eqb_spec j (size s)) as [->|]; auto.
+  rewrite proj_out; auto.
+Qed.
+Lemma ow_alloc s v j : ow (st_alloc s (zero_elem v)) j = ow s j.
+Proof.
+  unfold ow. rewrite proj_st_alloc. destruct (Nat.eqb_spec j (size s)) as [->|]; auto.
+  rewrite proj_out; auto.
+Qed.
+Lemma vl_alloc s v j : vl (st_alloc s (zero_elem v)) j = if Nat.eqb j (size s) then v else vl s j.
+Proof. unfold vl. apply proj_st_alloc. Qed.
+#[export] Hint Rewrite nx_alloc pv_alloc ow_alloc vl_alloc : heap.
+
+Lemma alloc_elem_eq s v : alloc_elem s v = (size s, st_alloc s (zero_elem v)).
+Proof. reflexivity. Qed.
+
+Lemma Rep_fresh s a : Rep s a -> fresh a = size s.
+Proof. intro R. unfold fresh. symmetry. apply (R_vals _ _ R). Qed.
+
+Lemma alloc_elem_sim s a v :
+  Rep s a -> Rep (st_alloc s (zero_elem v)) (a_alloc a v).
+Proof.
+  intro R. set (s' := st_alloc s (zero_elem v)).
+  assert (N : forall j, nx s' j = nx s j) by (intro; apply nx_alloc).
+  assert (P : forall j, pv s' j = pv s j) by (intro; apply pv_alloc).
+  assert (W : forall j, ow s' j = ow s j) by (intro; apply ow_alloc).
+  destruct (R_vals _ _ R) as [V1 V2].
+  constructor; cbn [a_alloc a_lists a_vals].
+  - unfold s'. rewrite size_st_alloc, app_length. simpl. split; [lia|].
+    intros j Hj. rewrite vl_alloc, nth_error_alloc, <- V1.
+    destruct (Nat.eqb_spec j (size s)); auto. apply V2. lia.
+  - apply (R_lsts _ _ R).
+  - destruct (R_roots _ _ R) as [ND RR]. split; auto.
+    intros e He. destruct (RR e He). rewrite W. unfold s'. rewrite size_st_alloc. split; [lia|auto].
+  - intros l r H. rewrite N, P. eapply R_uninit; eauto.
+  - intros l r xs H. destruct (R_init _ _ R _ _ _ H) as (C & D & O). repeat split; auto.
+    + eapply chain_ext; eauto.
+    + intros e I. rewrite W. auto.
+  - intros e l. rewrite W. apply (R_own _ _ R).
+  - intros e. rewrite W, N, P. apply (R_free _ _ R).
+Qed.
+
+Lemma alloc_elem_free s a v :
+  Rep s a -> let e := size s in
+  e < size (st_alloc s (zero_elem v)) /\ ow (st_alloc s (zero_elem v)) e = None /\ ~ is_root (a_alloc a v) e.
+Proof.
+  intro R. cbn zeta. rewrite size_st_alloc, ow_alloc. split; [lia|]. split.
+  - apply proj_out. lia.
+  - intro I. destruct (proj2 (R_roots _ _ R) _ I). lia.
+Qed.
+
+Lemma alloc_list_eq s :
+  alloc_list s = (length (lsts s), State (elems s ++ [zero_elem 0]) (lsts s ++ [LRec (size s) 0])).
+Proof. reflexivity. Qed.
+
+Lemma alloc_list_sim s a :
+  Rep s a -> Rep (State (elems s ++ [zero_elem 0]) (lsts s ++ [LRec (size s) 0])) (a_newlist a None).
+Proof.
+  intro R. set (s' := State _ _).
+  assert (N : forall j, nx s' j = nx s j) by (intro; apply (nx_alloc s 0%Z)).
+  assert (P : forall j, pv s' j = pv s j) by (intro; apply (pv_alloc s 0%Z)).
+  assert (W : forall j, ow s' j = ow s j) by (intro; apply (ow_alloc s 0%Z)).
+  assert (Sz : size s' = S (size s)) by (apply (size_st_alloc s (zero_elem 0))).
+  destruct (R_vals _ _ R) as [V1 V2]. destruct (R_lsts _ _ R) as [L1 L2]. destruct (R_roots _ _ R) as [ND RR].
+  assert (F : fresh a = size s) by (apply Rep_fresh; auto).
+  assert (NthL : forall l r o, nth_error (a_lists a ++ [(fresh a, None)]) l = Some (r, o) ->
+                 nth_error (a_lists a) l = Some (r, o) \/ (l = length (a_lists a) /\ r = size s /\ o = None)).
+  { intros l r o. rewrite nth_error_alloc. destruct (Nat.eqb_spec l (length (a_lists a))); auto.
+    intro E; injection E as <- <-. auto. }
+  constructor; cbn [a_newlist a_lists a_vals].
+  - rewrite Sz, app_length. simpl. split; [lia|].
+    intros j Hj. change (vl s' j) with (vl (st_alloc s (zero_elem 0)) j).
+    rewrite vl_alloc, nth_error_alloc, <- V1.
+    destruct (Nat.eqb_spec j (size s)); auto. apply V2. lia.
+  - unfold s'; cbn [lsts]. rewrite !app_length. simpl. split; [lia|].
+    intros l r o H. apply NthL in H as [H|(-> & -> & ->)].
+    + rewrite nth_error_app1; auto. apply nth_error_Some. rewrite (L2 _ _ _ H). discriminate.
+    + rewrite <- L1, nth_error_alloc, Nat.eqb_refl. reflexivity.
+  - split.
+    + rewrite map_app. simpl. apply NoDup_app_iff. split; auto. split; [constructor; auto; constructor|].
+      intros x Ix [<-|[]]. destruct (RR _ Ix). lia.
+    + intros e He. unfold is_root in He. cbn [a_newlist a_lists] in He. rewrite map_app, in_app_iff in He.
+      rewrite W, Sz. destruct He as [He|[<-|[]]].
+      * destruct (RR e He). split; [lia|auto].
+      * cbn [fst]. rewrite F. split; [lia|]. apply proj_out. lia.
+  - intros l r H. rewrite N, P. apply NthL in H as [H|(-> & -> & _)].
+    + eapply R_uninit; eauto.
+    + split; apply proj_out; lia.
+  - intros l r xs H. apply NthL in H as [H|(_ & _ & ?)]; [|discriminate].
+    destruct (R_init _ _ R _ _ _ H) as (C & D & O). repeat split; auto.
+    + eapply chain_ext; eauto.
+    + intros e I. rewrite W. auto.
+  - intros e l. rewrite W. intro Oe. destruct (R_own _ _ R _ _ Oe) as (r & xs & H & I).
+    exists r, xs. split; auto. rewrite nth_error_app1; auto. apply nth_error_Some. congruence.
+  - intros e. rewrite W, N, P. intros Oe Nr. apply (R_free _ _ R); auto.
+    intro I. apply Nr. unfold is_root. cbn [a_newlist a_lists]. rewrite map_app, in_app_iff. auto.
+Qed.
+
+(* ---- facts about a_set ---- *)
+Lemma map_nth_map_nth {C} (f g : C -> C) i (h : list C) :
+  map_nth f i (map_nth g i h) = map_nth (fun x => f (g x)) i h.
+Proof. revert i; induction h as [|x t IH]; intros [|i]; simpl; f_equal; auto. Qed.
+
+Lemma map_nth_id {C} (f : C -> C) i (h : list C) c : nth_error h i = Some c -> f c = c -> map_nth f i h = h.
+Proof.
+  revert i; induction h as [|x t IH]; intros [|i] H E; simpl in *; try discriminate; auto.
+  - injection H as ->. congruence.
+  - f_equal. eauto.
+Qed.
+
+Lemma a_set_a_set a l xs ys : a_set (a_set a l xs) l ys = a_set a l ys.
+Proof. unfold a_set; cbn [a_lists a_vals]. rewrite map_nth_map_nth. reflexivity. Qed.
+
+Lemma a_set_same a l r xs : nth_error (a_lists a) l = Some (r, Some xs) -> a_set a l xs = a.
+Proof.
+  intro H. unfold a_set. rewrite (map_nth_id _ _ _ _ H) by reflexivity. destruct a; reflexivity.
+Qed.
+
+Lemma a_seq_nth a l r o : nth_error (a_lists a) l = Some (r, o) -> a_seq a l = match o with Some xs => xs | None => [] end.
+Proof. intro H. unfold a_seq. rewrite H. reflexivity. Qed.
+
+Lemma a_seq_a_set a l xs l' : l < length (a_lists a) -> a_seq (a_set a l xs) l' = if Nat.eqb l' l then xs else a_seq a l'.
+Proof.
+  intro H. unfold a_seq. rewrite a_set_nth. destruct (Nat.eqb_spec l' l) as [->|]; auto.
+  destruct (nth_error (a_lists a) l) as [[r o]|] eqn:E; [reflexivity|].
+  apply nth_error_None in E. lia.
+Qed.
+
+Lemma Rep_size s a : Rep s a -> size s = length (a_vals a).
+Proof. intro R. apply (R_vals _ _ R). Qed.
+
+(* if l.root.next == nil { l.Init() } *)
+Lemma lazyInit_sim s a l r o :
+  Rep s a -> nth_error (a_lists a) l = Some (r, o) ->
+  exists s', list_lazyInit l s = Ok s' /\ Rep s' (a_set a l (a_seq a l)).
+Proof.
+  intros R H. destruct (Rep_list _ _ _ _ _ R H) as (Hl & Hr & Hor & Hlen).
+  unfold list_lazyInit. rewrite (root_of_eq _ _ _ _ Hl). cbn [bind]. hstep.
+  rewrite (a_seq_nth _ _ _ _ H).
+  destruct o as [xs|].
+  - destruct (R_init _ _ R _ _ _ H) as (C & _). rewrite (chain_first _ _ _ _ _ C). cbn [ptr_eqb option_eqb].
+    exists s. split; auto. rewrite (a_set_same _ _ _ _ H). exact R.
+  - destruct (R_uninit _ _ R _ _ H) as [-> _]. cbn [ptr_eqb option_eqb].
+    apply (init_sim s a l r None); auto.
+Qed.
+
+Lemma a_set_nth_same a l r o xs :
+  nth_error (a_lists a) l = Some (r, o) -> nth_error (a_lists (a_set a l xs)) l = Some (r, Some xs).
+Proof. intro H. rewrite a_set_nth, Nat.eqb_refl, H. reflexivity. Qed.
+
+(* l.insert(&Element{Value: v}, at) *)
+Lemma insertValue_sim s a l r xs at_ v :
+  Rep s a -> nth_error (a_lists a) l = Some (r, Some xs) -> (at_ = r \/ In at_ xs) ->
+  exists s', list_insertValue l v (Some at_) s = Ok (Some (size s), s') /\
+             Rep s' (a_set (a_alloc a v) l (link_after r at_ (size s) xs)).
+Proof.
+  intros R H Hat. unfold list_insertValue. rewrite alloc_elem_eq.
+  pose proof (alloc_elem_sim s a v R) as R1.
+  destruct (alloc_elem_free s a v R) as (F1 & F2 & F3).
+  apply (insert_sim _ _ l r xs at_ (size s) R1); auto.
+Qed.
+
+(* ---- more pure facts relating the pointer-level position to the sequence operations ---- *)
+
+Lemma rem_app e a b : rem e (a ++ b) = rem e a ++ rem e b.
+Proof. induction a as [|x t IH]; simpl; auto. destruct (Nat.eqb x e); simpl; rewrite IH; auto. Qed.
+
+Lemma last_app_cons {A} (a : list A) x b d : last (a ++ x :: b) d = last b x.
+Proof.
+  induction a as [|y t IH]; simpl.
+  - destruct b; auto. apply (last_cons x d (a :: b)).
+  - rewrite <- IH. destruct (t ++ x :: b) eqn:E; auto. destruct t; discriminate.
+Qed.
+
+Lemma link_after_last r e xs : ~ In r xs -> NoDup xs -> link_after r (last xs r) e xs = xs ++ [e].
+Proof.
+  intros Nr D. unfold link_after.
+  destruct (last_in_or r xs) as [[E ->]|I].
+  - rewrite Nat.eqb_refl. reflexivity.
+  - destruct (Nat.eqb_spec (last xs r) r) as [E|_]; [rewrite E in I; tauto|].
+    destruct (exists_last (l := xs)) as (t & y & ->); [intros ->; simpl in I; tauto|].
+    rewrite last_app_cons. simpl.
+    apply NoDup_app_iff in D as (_ & _ & D).
+    rewrite ins_after_split by (intro X; apply (D _ X); simpl; auto).
+    rewrite <- app_assoc. reflexivity.
+Qed.
+
+Lemma link_after_pred r e pre m post :
+  NoDup (pre ++ m :: post) -> ~ In r (pre ++ m :: post) ->
+  link_after r (last pre r) e (pre ++ m :: post) = ins_before m e (pre ++ m :: post).
+Proof.
+  intros D Nr. apply NoDup_app_iff in D as (D1 & D2 & D3).
+  assert (Nm : ~ In m pre) by (intro X; apply (D3 _ X); simpl; auto).
+  rewrite ins_before_split by auto. unfold link_after.
+  destruct (last_in_or r pre) as [[E ->]|I].
+  - rewrite Nat.eqb_refl. reflexivity.
+  - destruct (Nat.eqb_spec (last pre r) r) as [E|_].
+    { exfalso. apply Nr, in_or_app. left. rewrite <- E. auto. }
+    destruct (exists_last (l := pre)) as (t & y & ->); [intros ->; simpl in I; tauto|].
+    rewrite last_app_cons. simpl. rewrite <- !app_assoc. simpl.
+    apply NoDup_app_iff in D1 as (_ & _ & D1).
+    rewrite ins_after_split by (intro X; apply (D1 _ X); simpl; auto). reflexivity.
+Qed.
+
+Lemma last_rem e xs r : last xs r <> e -> last (rem e xs) r = last xs r.
+Proof.
+  revert r; induction xs as [|x t IH]; intros r N; auto.
+  rewrite last_cons in N. simpl rem.
+  destruct (Nat.eqb_spec x e) as [->|Nx].
+  - rewrite last_cons. destruct t as [|y u]; [simpl in N; congruence|].
+    rewrite IH; [|rewrite last_cons in *; auto]. rewrite !last_cons. reflexivity.
+  - rewrite !last_cons. apply IH. auto.
+Qed.
+
+Lemma rem_last_id e xs r : NoDup xs -> In e xs -> last xs r = e -> rem e xs ++ [e] = xs.
+Proof.
+  intros D I E.
+  destruct (exists_last (l := xs)) as (t & y & ->); [intros ->; simpl in I; tauto|].
+  rewrite last_app_cons in E. simpl in E. subst y.
+  apply NoDup_app_iff in D as (_ & _ & D).
+  rewrite rem_split; [rewrite app_nil_r; reflexivity| |simpl; tauto].
+  intro X. apply (D _ X). simpl; auto.
+Qed.
+
+Lemma rem_first_id e t : NoDup (e :: t) -> e :: rem e (e :: t) = e :: t.
+Proof. intro D. apply NoDup_cons_iff in D as [N _]. simpl. rewrite Nat.eqb_refl, rem_notin; auto. Qed.
+
+Lemma ins_before_pred_id e m pre post r :
+  NoDup (pre ++ m :: post) -> last pre r = e -> e <> r ->
+  ins_before m e (rem e (pre ++ m :: post)) = pre ++ m :: post.
+Proof.
+  intros D E Ner.
+  destruct (exists_last (l := pre)) as (t & y & ->); [intros ->; simpl in E; congruence|].
+  rewrite last_app_cons in E. simpl in E. subst y.
+  rewrite <- app_assoc in *. simpl in *.
+  pose proof D as D0. apply NoDup_app_iff in D as (_ & D2 & D3). apply NoDup_cons_iff in D2 as [D2 D4].
+  rewrite rem_split; [| intro X; apply (D3 _ X); simpl; auto | auto].
+  rewrite ins_before_split; auto.
+  intro X. apply (D3 _ X). simpl; auto.
+Qed.
+
+(* ================= Part D: every public operation refines the sequence semantics ================= *)
+
+Lemma Rep_vl s a e : Rep s a -> e < size s -> vl s e = a_val a e.
+Proof.
+  intros R H. destruct (R_vals _ _ R) as [_ V]. specialize (V e H).
+  unfold a_val. apply nth_error_nth with (d := 0%Z) in V. auto.
+Qed.
+
+Lemma Rep_ow_iff s a l r o e :
+  Rep s a -> nth_error (a_lists a) l = Some (r, o) -> (ow s e = Some l <-> In e (a_seq a l)).
+Proof.
+  intros R H. rewrite (a_seq_nth _ _ _ _ H). split.
+  - intro O. destruct (R_own _ _ R _ _ O) as (r' & xs & H' & I). rewrite H in H'. injection H' as _ ->. auto.
+  - destruct o as [xs|]; [|intros []]. apply (R_init _ _ R _ _ _ H).
+Qed.
+
+Lemma Rep_guard s a l r o e :
+  Rep s a -> nth_error (a_lists a) l = Some (r, o) -> ptr_eqb (ow s e) (Some l) = mem e (a_seq a l).
+Proof.
+  intros R H. destruct (mem e (a_seq a l)) eqn:M.
+  - apply ptr_eqb_eq. apply mem_In in M. eapply Rep_ow_iff; eauto.
+  - apply ptr_eqb_neq. apply mem_false in M. intro O. apply M. eapply Rep_ow_iff; eauto.
+Qed.
+
+Lemma Rep_seq_init s a l r o :
+  Rep s a -> nth_error (a_lists a) l = Some (r, o) -> a_seq a l <> [] -> o = Some (a_seq a l).
+Proof. intros R H N. rewrite (a_seq_nth _ _ _ _ H) in *. destruct o; congruence. Qed.
+
+Lemma Rep_mem_init s a l r o e :
+  Rep s a -> nth_error (a_lists a) l = Some (r, o) -> In e (a_seq a l) -> o = Some (a_seq a l).
+Proof. intros R H I. eapply Rep_seq_init; eauto. intro E. rewrite E in I. destruct I. Qed.
+
+Lemma Remove_sim s a l r o e :
+  Rep s a -> nth_error (a_lists a) l = Some (r, o) -> e < size s ->
+  exists s', list_Remove l (Some e) s = Ok (a_val a e, s') /\
+             Rep s' (if mem e (a_seq a l) then a_set a l (rem e (a_seq a l)) else a).
+Proof.
+  intros R H He. unfold list_Remove. hstep. rewrite (Rep_guard _ _ _ _ _ e R H).
+  destruct (mem e (a_seq a l)) eqn:M.
+  - apply mem_In in M. pose proof (Rep_mem_init _ _ _ _ _ _ R H M) as ->.
+    destruct (remove_sim _ _ _ _ _ _ R H M) as (s' & E & R').
+    rewrite E. cbn [bind].
+    assert (Sz : size s' = size s) by (rewrite (Rep_size _ _ R'), (Rep_size _ _ R); reflexivity).
+    hstep. rewrite (Rep_vl _ _ _ R') by lia.
+    exists s'. split; auto.
+  - cbn [bind]. hstep. rewrite (Rep_vl _ _ _ R) by lia. eauto.
+Qed.
+
+Lemma PushFront_sim s a l r o v :
+  Rep s a -> nth_error (a_lists a) l = Some (r, o) ->
+  exists s', list_PushFront l v s = Ok (Some (fresh a), s') /\
+             Rep s' (a_set (a_alloc a v) l (fresh a :: a_seq a l)).
+Proof.
+  intros R H. unfold list_PushFront.
+  destruct (lazyInit_sim _ _ _ _ _ R H) as (s1 & E1 & R1). rewrite E1. cbn [bind].
+  pose proof (a_set_nth_same _ _ _ _ (a_seq a l) H) as H1.
+  destruct (Rep_list _ _ _ _ _ R1 H1) as (Hl & _).
+  rewrite (root_of_eq _ _ _ _ Hl). cbn [bind].
+  destruct (insertValue_sim _ _ _ _ _ r v R1 H1 (or_introl (eq_refl r))) as (s2 & E2 & R2).
+  rewrite E2. rewrite (Rep_fresh _ _ R). 
+  assert (Sz : size s1 = size s) by (rewrite (Rep_size _ _ R1), (Rep_size _ _ R); reflexivity).
+  rewrite Sz in *. exists s2. split; auto.
+  unfold link_after in R2. rewrite Nat.eqb_refl in R2.
+  change (a_alloc (a_set a l (a_seq a l)) v) with (a_set (a_alloc a v) l (a_seq a l)) in R2.
+  rewrite a_set_a_set in R2. exact R2.
+Qed.
+
+Lemma Rep_pv_root s a l r xs : Rep s a -> nth_error (a_lists a) l = Some (r, Some xs) -> pv s r = Some (last xs r).
+Proof. intros R H. destruct (R_init _ _ R _ _ _ H) as (C & _). eapply chain_last; eauto. Qed.
+
+Lemma Rep_nx_root s a l r xs : Rep s a -> nth_error (a_lists a) l = Some (r, Some xs) -> nx s r = Some (hd r xs).
+Proof. intros R H. destruct (R_init _ _ R _ _ _ H) as (C & _). eapply chain_first; eauto. Qed.
+
+Lemma last_root_or_in (r : nat) xs : last xs r = r \/ In (last xs r) xs.
+Proof. destruct (last_in_or r xs) as [[E _]|I]; auto. Qed.
+
+Lemma PushBack_sim s a l r o v :
+  Rep s a -> nth_error (a_lists a) l = Some (r, o) ->
+  exists s', list_PushBack l v s = Ok (Some (fresh a), s') /\
+             Rep s' (a_set (a_alloc a v) l (a_seq a l ++ [fresh a])).
+Proof.
+  intros R H. unfold list_PushBack.
+  destruct (lazyInit_sim _ _ _ _ _ R H) as (s1 & E1 & R1). rewrite E1. cbn [bind].
+  pose proof (a_set_nth_same _ _ _ _ (a_seq a l) H) as H1.
+  destruct (Rep_list _ _ _ _ _ R1 H1) as (Hl & Hr & _).
+  rewrite (root_of_eq _ _ _ _ Hl). cbn [bind]. hstep. rewrite (Rep_pv_root _ _ _ _ _ R1 H1).
+  destruct (insertValue_sim _ _ _ _ _ (last (a_seq a l) r) v R1 H1 (last_root_or_in _ _)) as (s2 & E2 & R2).
+  rewrite E2. rewrite (Rep_fresh _ _ R).
+  assert (Sz : size s1 = size s) by (rewrite (Rep_size _ _ R1), (Rep_size _ _ R); reflexivity).
+  rewrite Sz in *. exists s2. split; auto.
+  destruct (R_init _ _ R1 _ _ _ H1) as (_ & D & _).
+  rewrite link_after_last in R2; auto; [|apply (Rep_root_notin _ _ _ _ _ _ _ _ R1 H1 H1)].
+  change (a_alloc (a_set a l (a_seq a l)) v) with (a_set (a_alloc a v) l (a_seq a l)) in R2.
+  rewrite a_set_a_set in R2. exact R2.
+Qed.
+
+Lemma InsertAfter_sim s a l r o v m :
+  Rep s a -> nth_error (a_lists a) l = Some (r, o) -> m < size s ->
+  exists s', list_InsertAfter l v (Some m) s =
+             Ok (if mem m (a_seq a l) then Some (fresh a) else None, s') /\
+             Rep s' (if mem m (a_seq a l) then a_set (a_alloc a v) l (ins_after m (fresh a) (a_seq a l)) else a).
+Proof.
+  intros R H Hm. unfold list_InsertAfter. hstep. rewrite (Rep_guard _ _ _ _ _ m R H).
+  destruct (mem m (a_seq a l)) eqn:M; cbn [negb]; [|eauto].
+  apply mem_In in M. pose proof (Rep_mem_init _ _ _ _ _ _ R H M) as ->.
+  destruct (insertValue_sim _ _ _ _ _ m v R H (or_intror M)) as (s2 & E2 & R2).
+  rewrite E2, (Rep_fresh _ _ R). exists s2. split; auto.
+  unfold link_after in R2.
+  destruct (Nat.eqb_spec m r) as [->|_]; auto.
+  exfalso. apply (Rep_root_notin _ _ _ _ _ _ _ _ R H H M).
+Qed.
+
+Lemma InsertBefore_sim s a l r o v m :
+  Rep s a -> nth_error (a_lists a) l = Some (r, o) -> m < size s ->
+  exists s', list_InsertBefore l v (Some m) s =
+             Ok (if mem m (a_seq a l) then Some (fresh a) else None, s') /\
+             Rep s' (if mem m (a_seq a l) then a_set (a_alloc a v) l (ins_before m (fresh a) (a_seq a l)) else a).
+Proof.
+  intros R H Hm. unfold list_InsertBefore. hstep. hstep. rewrite (Rep_guard _ _ _ _ _ m R H).
+  destruct (mem m (a_seq a l)) eqn:M; cbn [negb]; [|eauto].
+  apply mem_In in M. pose proof (Rep_mem_init _ _ _ _ _ _ R H M) as ->.
+  destruct (R_init _ _ R _ _ _ H) as (C & D & _).
+  assert (Nr : ~ In r (a_seq a l)) by (apply (Rep_root_notin _ _ _ _ _ _ _ _ R H H)).
+  destruct (in_split _ _ M) as (pre & post & E). rewrite E in *.
+  destruct (chain_at _ _ _ _ _ _ _ C) as [_ Ep].
+  rewrite Ep.
+  assert (Hat : last pre r = r \/ In (last pre r) (pre ++ m :: post)).
+  { destruct (last_root_or_in r pre); auto. right. apply in_or_app; auto. }
+  destruct (insertValue_sim _ _ _ _ _ (last pre r) v R H Hat) as (s2 & E2 & R2).
+  rewrite E2, (Rep_fresh _ _ R). exists s2. split; auto.
+  rewrite link_after_pred in R2; auto.
+Qed.
+
+Lemma MoveToFront_sim s a l r o e :
+  Rep s a -> nth_error (a_lists a) l = Some (r, o) -> e < size s ->
+  exists s', list_MoveToFront l (Some e) s = Ok s' /\
+             Rep s' (if mem e (a_seq a l) then a_set a l (e :: rem e (a_seq a l)) else a).
+Proof.
+  intros R H He. unfold list_MoveToFront. hstep. rewrite (Rep_guard _ _ _ _ _ e R H).
+  destruct (mem e (a_seq a l)) eqn:M; cbn [negb]; [|eauto].
+  apply mem_In in M. pose proof (Rep_mem_init _ _ _ _ _ _ R H M) as ->.
+  destruct (Rep_list _ _ _ _ _ R H) as (Hl & Hr & _).
+  destruct (R_init _ _ R _ _ _ H) as (C & D & _).
+  assert (Nr : ~ In r (a_seq a l)) by (apply (Rep_root_notin _ _ _ _ _ _ _ _ R H H)).
+  rewrite (root_of_eq _ _ _ _ Hl). cbn [bind]. hstep. rewrite (Rep_nx_root _ _ _ _ _ R H).
+  destruct (ptr_eqb_spec (Some (hd r (a_seq a l))) (Some e)) as [E|N].
+  - exists s. split; auto. injection E as E.
+    destruct (a_seq a l) as [|x t] eqn:Es; [simpl in M; tauto|]. simpl in E. subst x.
+    rewrite rem_first_id by auto. rewrite <- Es in *. rewrite (a_set_same _ _ _ _ H). exact R.
+  - assert (Ner : e <> r) by (intros ->; auto).
+    destruct (move_sim _ _ _ _ _ _ r R H M (or_introl (eq_refl r)) Ner) as (s' & E' & R').
+    exists s'. split; auto. unfold link_after in R'. rewrite Nat.eqb_refl in R'. exact R'.
+Qed.
+
+Lemma MoveToBack_sim s a l r o e :
+  Rep s a -> nth_error (a_lists a) l = Some (r, o) -> e < size s ->
+  exists s', list_MoveToBack l (Some e) s = Ok s' /\
+             Rep s' (if mem e (a_seq a l) then a_set a l (rem e (a_seq a l) ++ [e]) else a).
+Proof.
+  intros R H He. unfold list_MoveToBack. hstep. rewrite (Rep_guard _ _ _ _ _ e R H).
+  destruct (mem e (a_seq a l)) eqn:M; cbn [negb]; [|eauto].
+  apply mem_In in M. pose proof (Rep_mem_init _ _ _ _ _ _ R H M) as ->.
+  destruct (Rep_list _ _ _ _ _ R H) as (Hl & Hr & _).
+  destruct (R_init _ _ R _ _ _ H) as (C & D & _).
+  assert (Nr : ~ In r (a_seq a l)) by (apply (Rep_root_notin _ _ _ _ _ _ _ _ R H H)).
+  rewrite (root_of_eq _ _ _ _ Hl). cbn [bind]. hstep. rewrite (Rep_pv_root _ _ _ _ _ R H).
+  destruct (ptr_eqb_spec (Some (last (a_seq a l) r)) (Some e)) as [E|N].
+  - exists s. split; auto. injection E as E.
+    rewrite (rem_last_id e (a_seq a l) r) by auto. rewrite (a_set_same _ _ _ _ H). exact R.
+  - assert (Nle : last (a_seq a l) r <> e) by congruence.
+    destruct (move_sim _ _ _ _ _ _ (last (a_seq a l) r) R H M (last_root_or_in _ _) (not_eq_sym Nle)) as (s' & E' & R').
+    exists s'. split; auto.
+    rewrite <- (last_rem e (a_seq a l) r Nle) in R'.
+    rewrite link_after_last in R'; auto.
+    + rewrite in_rem. tauto.
+    + apply NoDup_rem; auto.
+Qed.
+
+Lemma MoveAfter_sim s a l r o e m :
+  Rep s a -> nth_error (a_lists a) l = Some (r, o) -> e < size s -> m < size s ->
+  exists s', list_MoveAfter l (Some e) (Some m) s = Ok s' /\
+             Rep s' (if negb (mem e (a_seq a l)) then a else if Nat.eqb e m then a else
+                     if mem m (a_seq a l) then a_set a l (ins_after m e (rem e (a_seq a l))) else a).
+Proof.
+  intros R H He Hm. unfold list_MoveAfter. hstep. hstep. rewrite !(Rep_guard _ _ _ _ _ _ R H).
+  destruct (mem e (a_seq a l)) eqn:M; cbn [negb]; [|eauto].
+  cbn [ptr_eqb option_eqb]. destruct (Nat.eqb_spec e m) as [->|Nem]; [eauto|].
+  destruct (mem m (a_seq a l)) eqn:Mm; cbn [negb]; [|eauto].
+  apply mem_In in M, Mm. pose proof (Rep_mem_init _ _ _ _ _ _ R H M) as ->.
+  destruct (move_sim _ _ _ _ _ _ m R H M (or_intror Mm) Nem) as (s' & E' & R').
+  exists s'. split; auto. unfold link_after in R'.
+  destruct (Nat.eqb_spec m r) as [->|_]; auto.
+  exfalso. apply (Rep_root_notin _ _ _ _ _ _ _ _ R H H Mm).
+Qed.
+
+Lemma MoveBefore_sim s a l r o e m :
+  Rep s a -> nth_error (a_lists a) l = Some (r, o) -> e < size s -> m < size s ->
+  exists s', list_MoveBefore l (Some e) (Some m) s = Ok s' /\
+             Rep s' (if negb (mem e (a_seq a l)) then a else if Nat.eqb e m then a else
+                     if mem m (a_seq a l) then a_set a l (ins_before m e (rem e (a_seq a l))) else a).
+Proof.
+  intros R H He Hm. unfold list_MoveBefore. hstep. hstep. hstep. rewrite !(Rep_guard _ _ _ _ _ _ R H).
+  destruct (mem e (a_seq a l)) eqn:M; cbn [negb]; [|eauto].
+  cbn [ptr_eqb option_eqb]. destruct (Nat.eqb_spec e m) as [->|Nem]; [eauto|].
+  destruct (mem m (a_seq a l)) eqn:Mm; cbn [negb]; [|eauto].
+  apply mem_In in M, Mm. pose proof (Rep_mem_init _ _ _ _ _ _ R H M) as ->.
+  destruct (R_init _ _ R _ _ _ H) as (C & D & _).
+  assert (Nr : ~ In r (a_seq a l)) by (apply (Rep_root_notin _ _ _ _ _ _ _ _ R H H)).
+  assert (Ner : e <> r) by (intros ->; auto).
+  destruct (in_split _ _ Mm) as (pre & post & E). rewrite E in *.
+  destruct (chain_at _ _ _ _ _ _ _ C) as [_ Ep]. rewrite Ep.
+  destruct (Nat.eq_dec (last pre r) e) as [Ee|Ne].
+  - unfold list_move. rewrite Ee. replace (ptr_eqb (Some e) (Some e)) with true by (symmetry; apply ptr_eqb_eq; auto).
+    exists s. split; auto.
+    rewrite (ins_before_pred_id e m pre post r) by auto. rewrite (a_set_same _ _ _ _ H). exact R.
+  - assert (Hat : last pre r = r \/ In (last pre r) (pre ++ m :: post)).
+    { destruct (last_root_or_in r pre); auto. right. apply in_or_app; auto. }
+    destruct (move_sim _ _ _ _ _ _ (last pre r) R H M Hat (not_eq_sym Ne)) as (s' & E' & R').
+    exists s'. split; auto.
+    assert (Em : rem e (pre ++ m :: post) = rem e pre ++ m :: rem e post).
+    { rewrite rem_app. simpl. destruct (Nat.eqb_spec m e); [congruence|reflexivity]. }
+    rewrite Em in *. rewrite <- (last_rem e pre r Ne) in R'.
+    rewrite link_after_pred in R'; auto.
+    + rewrite <- Em. apply NoDup_rem; auto.
+    + rewrite <- Em. rewrite in_rem. tauto.
+Qed.
+
+Lemma Len_sim s a l r o :
+  Rep s a -> nth_error (a_lists a) l = Some (r, o) -> list_Len s l = Ok (Z.of_nat (length (a_seq a l))).
+Proof.
+  intros R H. destruct (Rep_list _ _ _ _ _ R H) as (Hl & _).
+  unfold list_Len. rewrite (len_of_eq _ _ _ _ Hl), (a_seq_nth _ _ _ _ H). destruct o; reflexivity.
+Qed.
+
+Lemma Front_sim s a l r o :
+  Rep s a -> nth_error (a_lists a) l = Some (r, o) -> list_Front s l = Ok (head (a_seq a l)).
+Proof.
+  intros R H. destruct (Rep_list _ _ _ _ _ R H) as (Hl & Hr & _).
+  unfold list_Front. rewrite (len_of_eq _ _ _ _ Hl), (a_seq_nth _ _ _ _ H). cbn [bind].
+  destruct o as [[|x t]|]; try reflexivity.
+  cbn [alen length]. replace (Z.of_nat (S (length t)) =? 0)%Z with false by (symmetry; apply Z.eqb_neq; lia).
+  rewrite (root_of_eq _ _ _ _ Hl). cbn [bind]. hstep. rewrite (Rep_nx_root _ _ _ _ _ R H). reflexivity.
+Qed.
+
+Lemma Back_sim s a l r o :
+  Rep s a -> nth_error (a_lists a) l = Some (r, o) -> list_Back s l = Ok (last_opt (a_seq a l)).
+Proof.
+  intros R H. destruct (Rep_list _ _ _ _ _ R H) as (Hl & Hr & _).
+  unfold list_Back. rewrite (len_of_eq _ _ _ _ Hl), (a_seq_nth _ _ _ _ H). cbn [bind].
+  destruct o as [[|x t]|]; try reflexivity.
+  cbn [alen length]. replace (Z.of_nat (S (length t)) =? 0)%Z with false by (symmetry; apply Z.eqb_neq; lia).
+  rewrite (root_of_eq _ _ _ _ Hl). cbn [bind]. hstep. rewrite (Rep_pv_root _ _ _ _ _ R H).
+  rewrite last_cons. reflexivity.
+Qed.
+
+(* Element.Next / Prev of a member of a list *)
+Lemma Next_in_list s a l r pre e post :
+  Rep s a -> nth_error (a_lists a) l = Some (r, Some (pre ++ e :: post)) ->
+  elem_Next s (Some e) = Ok (head post).
+Proof.
+  intros R H. destruct (Rep_list _ _ _ _ _ R H) as (Hl & Hr & _).
+  destruct (R_init _ _ R _ _ _ H) as (C & D & O).
+  assert (Ie : In e (pre ++ e :: post)) by (apply in_or_app; simpl; auto).
+  assert (He : e < size s) by (eapply ow_lt; eauto).
+  destruct (chain_at _ _ _ _ _ _ _ C) as [En _].
+  unfold elem_Next. hstep. hstep. rewrite (O _ Ie), En, (root_of_eq _ _ _ _ Hl). cbn [bind].
+  destruct post as [|y t]; cbn [hd head].
+  - replace (ptr_eqb (Some r) (Some r)) with true by (symmetry; apply ptr_eqb_eq; auto). reflexivity.
+  - replace (ptr_eqb (Some y) (Some r)) with false; [reflexivity|].
+    symmetry. apply ptr_eqb_neq. intro E; injection E as ->.
+    apply (Rep_root_notin _ _ _ _ _ _ _ _ R H H). apply in_or_app. simpl; auto.
+Qed.
+
+Lemma Prev_in_list s a l r pre e post :
+  Rep s a -> nth_error (a_lists a) l = Some (r, Some (pre ++ e :: post)) ->
+  elem_Prev s (Some e) = Ok (last_opt pre).
+Proof.
+  intros R H. destruct (Rep_list _ _ _ _ _ R H) as (Hl & Hr & _).
+  destruct (R_init _ _ R _ _ _ H) as (C & D & O).
+  assert (Ie : In e (pre ++ e :: post)) by (apply in_or_app; simpl; auto).
+  assert (He : e < size s) by (eapply ow_lt; eauto).
+  destruct (chain_at _ _ _ _ _ _ _ C) as [_ Ep].
+  unfold elem_Prev. hstep. hstep. rewrite (O _ Ie), Ep, (root_of_eq _ _ _ _ Hl). cbn [bind].
+  destruct pre as [|y t]; cbn [last_opt].
+  - cbn [last]. replace (ptr_eqb (Some r) (Some r)) with true by (symmetry; apply ptr_eqb_eq; auto). reflexivity.
+  - rewrite last_cons.
+    replace (ptr_eqb (Some (last t y)) (Some r)) with false; [reflexivity|].
+    symmetry. apply ptr_eqb_neq. intro E; injection E as E.
+    apply (Rep_root_notin _ _ _ _ _ _ _ _ R H H). apply in_or_app. left. rewrite <- E.
+    destruct (last_in_or y t) as [[-> _]|I]; simpl; auto.
+Qed.
+
+Lemma Next_free s e : e < size s -> ow s e = None -> elem_Next s (Some e) = Ok None.
+Proof. intros He O. unfold elem_Next. hstep. hstep. rewrite O. reflexivity. Qed.
+Lemma Prev_free s e : e < size s -> ow s e = None -> elem_Prev s (Some e) = Ok None.
+Proof. intros He O. unfold elem_Prev. hstep. hstep. rewrite O. reflexivity. Qed.
+
+Lemma succ_in_split e pre post : ~ In e pre -> succ_in e (pre ++ e :: post) = head post.
+Proof.
+  intro N. induction pre as [|x t IH]; simpl.
+  - rewrite Nat.eqb_refl. reflexivity.
+  - destruct (Nat.eqb_spec x e) as [->|]; [simpl in N; tauto|]. apply IH. simpl in N; tauto.
+Qed.
+
+Lemma pred_from_split p e pre post :
+  ~ In e pre -> pred_from p e (pre ++ e :: post) = match pre with [] => p | _ => last_opt pre end.
+Proof.
+  revert p; induction pre as [|x t IH]; intros p N; simpl.
+  - rewrite Nat.eqb_refl. reflexivity.
+  - destruct (Nat.eqb_spec x e) as [->|]; [simpl in N; tauto|].
+    rewrite IH by (simpl in N; tauto). destruct t as [|y u]; [reflexivity|].
+    cbn [last_opt]. rewrite last_cons. reflexivity.
+Qed.
+
+Lemma owner_seq_Some L e xs : owner_seq L e = Some xs -> In e xs /\ exists l r, nth_error L l = Some (r, Some xs).
+Proof.
+  induction L as [|[r [ys|]] t IH]; simpl; [discriminate| |].
+  - destruct (mem e ys) eqn:M.
+    + intro E; injection E as <-. split; [apply mem_In; auto|]. exists 0, r. reflexivity.
+    + intro E. destruct (IH E) as (I & l & r' & H). split; auto. exists (S l), r'. exact H.
+  - intro E. destruct (IH E) as (I & l & r' & H). split; auto. exists (S l), r'. exact H.
+Qed.
+
+Lemma owner_seq_None L e : owner_seq L e = None -> forall l r xs, nth_error L l = Some (r, Some xs) -> ~ In e xs.
+Proof.
+  induction L as [|[r [ys|]] t IH]; simpl; intros E l r' xs H.
+  - destruct l; discriminate.
+  - destruct (mem e ys) eqn:M; [discriminate|]. destruct l as [|l]; simpl in H.
+    + injection H as _ <-. apply mem_false; auto.
+    + eapply IH; eauto.
+  - destruct l as [|l]; simpl in H; [discriminate|]. eapply IH; eauto.
+Qed.
+
+Definition spec_next (a : astate) (e : nat) : ptr :=
+  match owner_seq (a_lists a) e with Some xs => succ_in e xs | None => None end.
+Definition spec_prev (a : astate) (e : nat) : ptr :=
+  match owner_seq (a_lists a) e with Some xs => pred_in e xs | None => None end.
+
+Lemma NextPrev_sim s a e :
+  Rep s a -> e < size s ->
+  elem_Next s (Some e) = Ok (spec_next a e) /\ elem_Prev s (Some e) = Ok (spec_prev a e).
+Proof.
+  intros R He. unfold spec_next, spec_prev.
+  destruct (owner_seq (a_lists a) e) as [xs|] eqn:Eo.
+  - destruct (owner_seq_Some _ _ _ Eo) as (I & l & r & H).
+    destruct (in_split _ _ I) as (pre & post & ->).
+    destruct (R_init _ _ R _ _ _ H) as (_ & D & _).
+    apply NoDup_app_iff in D as (_ & _ & D).
+    assert (N : ~ In e pre) by (intro X; apply (D _ X); simpl; auto).
+    unfold pred_in. rewrite succ_in_split, pred_from_split by auto. split.
+    + eapply Next_in_list; eauto.
+    + erewrite Prev_in_list by eauto. destruct pre; reflexivity.
+  - assert (O : ow s e = None).
+    { destruct (ow s e) as [l|] eqn:O; auto. exfalso.
+      destruct (R_own _ _ R _ _ O) as (r & xs & H & I).
+      apply (owner_seq_None _ _ Eo _ _ _ H I). }
+    split; [apply Next_free|apply Prev_free]; auto.
+Qed.
+
+(* ---- PushBackList / PushFrontList ---- *)
+
+Lemma a_alloc_copies_nil a : a_alloc_copies a [] = a.
+Proof. unfold a_alloc_copies. simpl. rewrite app_nil_r. destruct a; reflexivity. Qed.
+
+Lemma a_val_alloc a v x : x < length (a_vals a) -> a_val (a_alloc a v) x = a_val a x.
+Proof. intro H. unfold a_val, a_alloc; cbn [a_vals]. apply app_nth1; auto. Qed.
+
+Lemma map_a_val_ext a a' t :
+  (forall x, In x t -> a_val a' x = a_val a x) -> map (a_val a') t = map (a_val a) t.
+Proof. intro H. apply map_ext_in. auto. Qed.
+
+Lemma pushback_step_eq a l y t xs :
+  (forall x, In x t -> x < length (a_vals a)) ->
+  let a1 := a_set (a_alloc a (a_val a y)) l (xs ++ [fresh a]) in
+  a_set (a_alloc_copies a1 t) l ((xs ++ [fresh a]) ++ copies a1 t) =
+  a_set (a_alloc_copies a (y :: t)) l (xs ++ copies a (y :: t)).
+Proof.
+  intros Ht a1.
+  assert (F1 : fresh a1 = S (fresh a)).
+  { unfold fresh, a1, a_set, a_alloc; cbn [a_vals]. rewrite app_length. simpl. lia. }
+  assert (Ec : copies a (y :: t) = fresh a :: copies a1 t).
+  { unfold copies. rewrite F1. reflexivity. }
+  rewrite Ec, <- app_assoc. simpl.
+  unfold a_set at 1 2. f_equal.
+  - unfold a_alloc_copies, a1, a_set; cbn [a_lists]. rewrite map_nth_map_nth. reflexivity.
+  - unfold a_alloc_copies; cbn [a_vals]. unfold a1 at 1. unfold a_set, a_alloc; cbn [a_vals].
+    rewrite <- app_assoc. simpl. do 2 f_equal.
+    apply map_a_val_ext. intros x Ix. unfold a1.
+    change (a_val (a_set (a_alloc a (a_val a y)) l (xs ++ [fresh a])) x) with (a_val (a_alloc a (a_val a y)) x).
+    apply a_val_alloc. auto.
+Qed.
+
+Lemma seq_owned_lt s a l r xs x : Rep s a -> nth_error (a_lists a) l = Some (r, Some xs) -> In x xs -> x < size s.
+Proof. intros R H I. destruct (R_init _ _ R _ _ _ H) as (_ & _ & O). eapply ow_lt; eauto. Qed.
+
+Lemma nth_error_lt_exists {A} (L : list A) i : i < length L -> exists x, nth_error L i = Some x.
+Proof. intro H. destruct (nth_error L i) eqn:E; eauto. apply nth_error_None in E. lia. Qed.
+
+Lemma a_seq_owned_lt s a o x : Rep s a -> In x (a_seq a o) -> x < size s.
+Proof.
+  intros R I. unfold a_seq in I. destruct (nth_error (a_lists a) o) as [[r [xs|]]|] eqn:E; try destruct I.
+  eapply seq_owned_lt; eauto.
+Qed.
+
+Lemma a_seq_nth_Some a o : a_seq a o <> [] -> exists r, nth_error (a_lists a) o = Some (r, Some (a_seq a o)).
+Proof.
+  unfold a_seq. destruct (nth_error (a_lists a) o) as [[r [xs|]]|]; try congruence. eauto.
+Qed.
+
+Lemma length_a_set a l xs : length (a_lists (a_set a l xs)) = length (a_lists a).
+Proof. unfold a_set; cbn [a_lists]. apply length_map_nth. Qed.
+
+Lemma pushback_loop_sim l o r : forall todo s a pre suf ep,
+  Rep s a -> nth_error (a_lists a) l = Some (r, Some (a_seq a l)) ->
+  a_seq a o = pre ++ todo ++ suf -> (todo <> [] -> ep = head todo) ->
+  exists s', pushbacklist_loop (length todo) l ep s = Ok s' /\
+             Rep s' (a_set (a_alloc_copies a todo) l (a_seq a l ++ copies a todo)).
+Proof.
+  induction todo as [|y t IH]; intros s a pre suf ep R H Eo Hep.
+  - exists s. split; [reflexivity|]. rewrite a_alloc_copies_nil. unfold copies. simpl. rewrite app_nil_r.
+    rewrite (a_set_same _ _ _ _ H). exact R.
+  - rewrite (Hep ltac:(discriminate)). cbn [head length pushbacklist_loop].
+    assert (Iy : In y (a_seq a o)) by (rewrite Eo; apply in_or_app; simpl; auto).
+    assert (Hy : y < size s) by (eapply a_seq_owned_lt; eauto).
+    destruct (Rep_list _ _ _ _ _ R H) as (Hl & Hr & _).
+    destruct (R_init _ _ R _ _ _ H) as (_ & D & _).
+    assert (Nr : ~ In r (a_seq a l)) by (apply (Rep_root_notin _ _ _ _ _ _ _ _ R H H)).
+    hstep. rewrite (Rep_vl _ _ _ R Hy). rewrite (root_of_eq _ _ _ _ Hl). cbn [bind]. hstep.
+    rewrite (Rep_pv_root _ _ _ _ _ R H).
+    destruct (insertValue_sim _ _ _ _ _ (last (a_seq a l) r) (a_val a y) R H (last_root_or_in _ _)) as (s1 & E1 & R1).
+    rewrite E1. cbn [bind].
+    rewrite link_after_last in R1 by auto. rewrite <- (Rep_fresh _ _ R) in R1.
+    set (a1 := a_set (a_alloc a (a_val a y)) l (a_seq a l ++ [fresh a])) in *.
+    assert (Ll : l < length (a_lists a)) by (apply nth_error_Some; congruence).
+    assert (Sl : a_seq a1 l = a_seq a l ++ [fresh a]).
+    { unfold a1. rewrite a_seq_a_set, Nat.eqb_refl; auto. }
+    assert (H1 : nth_error (a_lists a1) l = Some (r, Some (a_seq a1 l))).
+    { rewrite Sl. unfold a1. apply (a_set_nth_same (a_alloc a (a_val a y)) l r (Some (a_seq a l))). exact H. }
+    (* the sequence of [o] still contains y :: t as a segment *)
+    assert (Eo1 : exists suf', a_seq a1 o = pre ++ (y :: t) ++ suf').
+    { unfold a1. rewrite a_seq_a_set by auto. destruct (Nat.eqb_spec o l) as [->|].
+      - exists (suf ++ [fresh a]). rewrite Eo. rewrite <- !app_assoc. reflexivity.
+      - exists suf. exact Eo. }
+    destruct Eo1 as (suf' & Eo1).
+    assert (No1 : a_seq a1 o <> []) by (rewrite Eo1; destruct pre; discriminate).
+    destruct (a_seq_nth_Some _ _ No1) as (ro & Ho1). rewrite Eo1 in Ho1.
+    change (pre ++ (y :: t) ++ suf') with (pre ++ y :: (t ++ suf')) in Ho1.
+    rewrite (Next_in_list _ _ _ _ _ _ _ R1 Ho1). cbn [bind].
+    destruct (IH s1 a1 (pre ++ [y]) suf' (head (t ++ suf')) R1 H1) as (s' & E' & R').
+    + rewrite Eo1, <- app_assoc. reflexivity.
+    + intro Nt. destruct t; [congruence|reflexivity].
+    + exists s'. split; auto. rewrite Sl in R'. unfold a1 in R'.
+      rewrite pushback_step_eq in R'; auto.
+      intros x Ix. rewrite <- (Rep_size _ _ R). eapply a_seq_owned_lt; eauto.
+      rewrite Eo. apply in_or_app. right. simpl. right. apply in_or_app. auto.
+Qed.
+
+Lemma a_set_alloc_copies_a_set a l W ys Z :
+  a_set (a_alloc_copies (a_set a l W) ys) l Z = a_set (a_alloc_copies a ys) l Z.
+Proof. unfold a_set, a_alloc_copies; cbn [a_lists a_vals]. rewrite map_nth_map_nth. reflexivity. Qed.
+
+Lemma PushBackList_sim s a l o r ol :
+  Rep s a -> nth_error (a_lists a) l = Some (r, ol) -> o < length (a_lists a) ->
+  exists s', list_PushBackList l o s = Ok s' /\
+             Rep s' (a_set (a_alloc_copies a (a_seq a o)) l (a_seq a l ++ copies a (a_seq a o))).
+Proof.
+  intros R H Ho. unfold list_PushBackList.
+  destruct (lazyInit_sim _ _ _ _ _ R H) as (s1 & E1 & R1). rewrite E1. cbn [bind].
+  set (a1 := a_set a l (a_seq a l)) in *.
+  assert (Ll : l < length (a_lists a)) by (apply nth_error_Some; congruence).
+  assert (H1 : nth_error (a_lists a1) l = Some (r, Some (a_seq a l))) by (apply (a_set_nth_same _ _ _ _ _ H)).
+  assert (Sq : forall l', a_seq a1 l' = a_seq a l').
+  { intro l'. unfold a1. rewrite a_seq_a_set by auto. destruct (Nat.eqb_spec l' l) as [->|]; auto. }
+  assert (Ho1 : o < length (a_lists a1)) by (unfold a1; rewrite length_a_set; auto).
+  destruct (nth_error_lt_exists _ _ Ho1) as ([ro oo] & Hoo).
+  rewrite (Len_sim _ _ _ _ _ R1 Hoo), (Front_sim _ _ _ _ _ R1 Hoo). cbn [bind]. rewrite Nat2Z.id.
+  rewrite <- (Sq l) in H1.
+  destruct (pushback_loop_sim l o r (a_seq a1 o) s1 a1 [] [] (head (a_seq a1 o)) R1 H1) as (s' & E' & R').
+  - simpl. rewrite app_nil_r. reflexivity.
+  - auto.
+  - exists s'. split; auto. rewrite !Sq in R'. unfold a1 in R'.
+    rewrite a_set_alloc_copies_a_set in R'. exact R'.
+Qed.
+
+Lemma last_opt_snoc t y : last_opt (t ++ [y]) = Some y.
+Proof. destruct t as [|x u]; [reflexivity|]. simpl app. cbn [last_opt]. rewrite last_app_cons. reflexivity. Qed.
+
+Lemma last_opt_app pre t : t <> [] -> last_opt (pre ++ t) = last_opt t.
+Proof.
+  intro N. destruct (exists_last N) as (u & y & ->). rewrite app_assoc, !last_opt_snoc. reflexivity.
+Qed.
+
+Lemma pushfront_step_eq a l y t xs :
+  (forall x, In x t -> x < length (a_vals a)) ->
+  let a1 := a_set (a_alloc a (a_val a y)) l (fresh a :: xs) in
+  a_set (a_alloc_copies a1 (rev t)) l (rev (copies a1 t) ++ fresh a :: xs) =
+  a_set (a_alloc_copies a (rev (t ++ [y]))) l (rev (copies a (t ++ [y])) ++ xs).
+Proof.
+  intros Ht a1.
+  assert (F1 : fresh a1 = S (fresh a)).
+  { unfold fresh, a1, a_set, a_alloc; cbn [a_vals]. rewrite app_length. simpl. lia. }
+  assert (Ec : copies a (t ++ [y]) = fresh a :: copies a1 t).
+  { unfold copies. rewrite F1, app_length. simpl. rewrite Nat.add_1_r. reflexivity. }
+  rewrite Ec. simpl rev. rewrite <- app_assoc. simpl. rewrite rev_unit.
+  unfold a_set at 1 2. f_equal.
+  - unfold a_alloc_copies, a1, a_set; cbn [a_lists]. rewrite map_nth_map_nth. reflexivity.
+  - unfold a_alloc_copies; cbn [a_vals]. unfold a1 at 1. unfold a_set, a_alloc; cbn [a_vals].
+    rewrite <- app_assoc. simpl. do 2 f_equal.
+    apply map_a_val_ext. intros x Ix. unfold a1.
+    change (a_val (a_set (a_alloc a (a_val a y)) l (fresh a :: xs)) x) with (a_val (a_alloc a (a_val a y)) x).
+    apply a_val_alloc. apply Ht. apply in_rev. auto.
+Qed.
+
+Lemma pushfront_loop_sim l o r : forall todo s a pre suf ep,
+  Rep s a -> nth_error (a_lists a) l = Some (r, Some (a_seq a l)) ->
+  a_seq a o = pre ++ todo ++ suf -> (todo <> [] -> ep = last_opt todo) ->
+  exists s', pushfrontlist_loop (length todo) l ep s = Ok s' /\
+             Rep s' (a_set (a_alloc_copies a (rev todo)) l (rev (copies a todo) ++ a_seq a l)).
+Proof.
+  induction todo as [|y t IH] using rev_ind; intros s a pre suf ep R H Eo Hep.
+  - exists s. split; [reflexivity|]. simpl rev. rewrite a_alloc_copies_nil. unfold copies. simpl.
+    rewrite (a_set_same _ _ _ _ H). exact R.
+  - rewrite (Hep ltac:(destruct t; discriminate)), last_opt_snoc.
+    rewrite app_length. simpl length. rewrite Nat.add_1_r. cbn [pushfrontlist_loop].
+    assert (Iy : In y (a_seq a o)).
+    { rewrite Eo. apply in_or_app. right. apply in_or_app. left. apply in_or_app. simpl; auto. }
+    assert (Hy : y < size s) by (eapply a_seq_owned_lt; eauto).
+    destruct (Rep_list _ _ _ _ _ R H) as (Hl & Hr & _).
+    hstep. rewrite (Rep_vl _ _ _ R Hy). rewrite (root_of_eq _ _ _ _ Hl). cbn [bind].
+    destruct (insertValue_sim _ _ _ _ _ r (a_val a y) R H (or_introl (eq_refl r))) as (s1 & E1 & R1).
+    rewrite E1. cbn [bind].
+    unfold link_after in R1. rewrite Nat.eqb_refl in R1. rewrite <- (Rep_fresh _ _ R) in R1.
+    set (a1 := a_set (a_alloc a (a_val a y)) l (fresh a :: a_seq a l)) in *.
+    assert (Ll : l < length (a_lists a)) by (apply nth_error_Some; congruence).
+    assert (Sl : a_seq a1 l = fresh a :: a_seq a l).
+    { unfold a1. rewrite a_seq_a_set, Nat.eqb_refl; auto. }
+    assert (H1 : nth_error (a_lists a1) l = Some (r, Some (a_seq a1 l))).
+    { rewrite Sl. unfold a1. apply (a_set_nth_same (a_alloc a (a_val a y)) l r (Some (a_seq a l))). exact H. }
+    assert (Eo1 : exists pre', a_seq a1 o = pre' ++ (t ++ [y]) ++ suf).
+    { unfold a1. rewrite a_seq_a_set by auto. destruct (Nat.eqb_spec o l) as [->|].
+      - exists (fresh a :: pre). rewrite Eo. reflexivity.
+      - exists pre. exact Eo. }
+    destruct Eo1 as (pre' & Eo1).
+    assert (No1 : a_seq a1 o <> []) by (rewrite Eo1; destruct pre', t; discriminate).
+    destruct (a_seq_nth_Some _ _ No1) as (ro & Ho1). rewrite Eo1 in Ho1.
+    replace (pre' ++ (t ++ [y]) ++ suf) with ((pre' ++ t) ++ y :: suf) in Ho1
+      by (rewrite <- !app_assoc; reflexivity).
+    rewrite (Prev_in_list _ _ _ _ _ _ _ R1 Ho1). cbn [bind].
+    destruct (IH s1 a1 pre' (y :: suf) (last_opt (pre' ++ t)) R1 H1) as (s' & E' & R').
+    + rewrite Eo1, <- !app_assoc. reflexivity.
+    + intro Nt. apply last_opt_app; auto.
+    + exists s'. split; auto. rewrite Sl in R'. unfold a1 in R'.
+      rewrite pushfront_step_eq in R'; auto.
+      intros x Ix. rewrite <- (Rep_size _ _ R). eapply a_seq_owned_lt; eauto.
+      rewrite Eo. apply in_or_app. right. apply in_or_app. left. apply in_or_app. auto.
+Qed.
+
+Lemma PushFrontList_sim s a l o r ol :
+  Rep s a -> nth_error (a_lists a) l = Some (r, ol) -> o < length (a_lists a) ->
+  exists s', list_PushFrontList l o s = Ok s' /\
+             Rep s' (a_set (a_alloc_copies a (rev (a_seq a o))) l (rev (copies a (a_seq a o)) ++ a_seq a l)).
+Proof.
+  intros R H Ho. unfold list_PushFrontList.
+  destruct (lazyInit_sim _ _ _ _ _ R H) as (s1 & E1 & R1). rewrite E1. cbn [bind].
+  set (a1 := a_set a l (a_seq a l)) in *.
+  assert (Ll : l < length (a_lists a)) by (apply nth_error_Some; congruence).
+  assert (H1 : nth_error (a_lists a1) l = Some (r, Some (a_seq a l))) by (apply (a_set_nth_same _ _ _ _ _ H)).
+  assert (Sq : forall l', a_seq a1 l' = a_seq a l').
+  { intro l'. unfold a1. rewrite a_seq_a_set by auto. destruct (Nat.eqb_spec l' l) as [->|]; auto. }
+  assert (Ho1 : o < length (a_lists a1)) by (unfold a1; rewrite length_a_set; auto).
+  destruct (nth_error_lt_exists _ _ Ho1) as ([ro oo] & Hoo).
+  rewrite (Len_sim _ _ _ _ _ R1 Hoo), (Back_sim _ _ _ _ _ R1 Hoo). cbn [bind]. rewrite Nat2Z.id.
+  rewrite <- (Sq l) in H1.
+  destruct (pushfront_loop_sim l o r (a_seq a1 o) s1 a1 [] [] (last_opt (a_seq a1 o)) R1 H1) as (s' & E' & R').
+  - simpl. rewrite app_nil_r. reflexivity.
+  - auto.
+  - exists s'. split; auto. rewrite !Sq in R'. unfold a1 in R'.
+    rewrite a_set_alloc_copies_a_set in R'. exact R'.
+Qed.
